@@ -1,6 +1,6 @@
 #!/bin/sh
 # usage: tools/coqshow.sh <file.v (relative to coq/)> <line>  -- show the goals after that line (scratch copy under /tmp)
-cd /verif/coq
+cd ${VERIF_COQ:-/verif/coq}
 head -n "$2" "$1" > /tmp/_show.v
 echo "Show. Abort." >> /tmp/_show.v
 coqc -Q . RdpV /tmp/_show.v 2>&1 | head -${3:-60}
